@@ -13,6 +13,7 @@ Definition show_err (e : err) : str :=
   | EUnclosed p => S_ "err unclosed " ++ show_dec p
   | ECycle k => S_ "err cycle " ++ hex k
   | EExpr x => S_ "err expr " ++ hex x
+  | ENeedEv x => S_ "needev " ++ hex x
   | EFromMissing _ => S_ "err from-missing"
   | EFromBoth _ => S_ "err from-both"
   | EParse => S_ "err parse"
@@ -77,9 +78,9 @@ Definition rd_eventry : rd (str * option str) :=
     if str_eqb tag (S_ "ok") then rd_bind rd_s (fun v => rd_ret (e, Some v))
     else if str_eqb tag (S_ "err") then rd_ret (e, None)
     else fun _ => None)).
-Definition ev_of_table (tbl : list (str * option str)) (e : str) : option str :=
-  match alookup e tbl with Some (Some v) => Some v | _ => None end.
-Definition rd_evtable : rd (str -> option str) := fun ts =>
+Definition ev_of_table (tbl : list (str * option str)) (e : str) : evr :=
+  match alookup e tbl with Some (Some v) => EvOk v | Some None => EvErr | None => EvNeed end.
+Definition rd_evtable : rd (str -> evr) := fun ts =>
   match ts with
   | [] => Some (ev_of_table [], [])
   | _ => rd_bind (rd_list rd_eventry) (fun tbl => rd_ret (ev_of_table tbl)) ts
@@ -333,7 +334,7 @@ Definition show_gen (g : gen_result) : str :=
   S_ " F " ++ hex (gr_file g).
 
 (* the count: partitioner of task_partitioner: the k-th (1-based) of n takes items i with i mod n = k-1 *)
-Definition run_gen (EVt : str -> option str) (t : ytree) (c : cli) : res gen_result :=
+Definition run_gen (EVt : str -> evr) (t : ytree) (c : cli) : res gen_result :=
   rbind (load t (S_ "laze-project.yml")) (fun b =>
   rbind (cli_selects c) (fun sel =>
   rbind (cli_env c) (fun cenv =>
